@@ -25,9 +25,23 @@ type c03Case struct {
 // DrawStackTables draws 1..maxTables tables with increasing, disjoint limits
 // over one shared pool of names (and a shared range of log update indices),
 // so that keys recur across tables with fresh kinds, deletions, re-creations.
-func DrawStackTables(t *rapid.T, maxTables int, hash int, exact bool, hashPoolMax int) []gen.TableSpec {
+// StackOpt adjusts DrawStackTables.
+type StackOpt struct {
+	// Indexed: at least 6 names, 256-byte blocks, half of the tables unaligned, no noisy logs -
+	// so that most tables carry a ref index and hence an object index.
+	Indexed bool
+}
+
+func DrawStackTables(t *rapid.T, maxTables int, hash int, exact bool, hashPoolMax int, opts ...StackOpt) []gen.TableSpec {
+	var opt StackOpt
+	if len(opts) > 0 {
+		opt = opts[0]
+	}
 	ng := gen.NewNameGen(t)
 	npool := rapid.IntRange(2, 12).Draw(t, "npool")
+	if opt.Indexed && npool < 6 {
+		npool = 6 + npool
+	}
 	var pool []string
 	for i := 0; i < npool; i++ {
 		pool = append(pool, ng.Draw(t, 30))
@@ -50,8 +64,12 @@ func DrawStackTables(t *rapid.T, maxTables int, hash int, exact bool, hashPoolMa
 		if cfg.BlockSize != 0 && cfg.BlockSize < 200 {
 			cfg.BlockSize = 200 // every pooled record fits
 		}
-		if rapid.Bool().Draw(t, "smallBlocks") {
+		if rapid.Bool().Draw(t, "smallBlocks") || opt.Indexed {
 			cfg.BlockSize = 256
+		}
+		if opt.Indexed {
+			cfg.Unaligned = rapid.Bool().Draw(t, "unalignedIdx")
+			cfg.SkipIndexObjects = false
 		}
 		min := next + uint64(rapid.IntRange(0, 2).Draw(t, "gap"))
 		max := min + uint64(rapid.IntRange(0, 3).Draw(t, "span"))
@@ -74,7 +92,7 @@ func DrawStackTables(t *rapid.T, maxTables int, hash int, exact bool, hashPoolMa
 			}
 			spec.Refs = append(spec.Refs, r)
 		}
-		noisy := rapid.IntRange(0, 4).Draw(t, "noisyLogs") == 2
+		noisy := rapid.IntRange(0, 4).Draw(t, "noisyLogs") == 2 && !opt.Indexed
 		if noisy {
 			// one noise record per block: keep the blocks (and the drawn noise) small
 			spec.Cfg.BlockSize = uint32(rapid.SampledFrom([]int{256, 320, 400}).Draw(t, "noisyBlock"))
@@ -143,6 +161,7 @@ type BuiltStack struct {
 	Skipped int // empty tables (not part of the stack)
 	// LongLogStreams counts log blocks whose deflated form is longer than the block size
 	LongLogStreams int
+	HasObjIndex    []bool // per table: it has an object section
 }
 
 // BuildTables writes every table; empty ones are left out (a stack never
@@ -162,13 +181,16 @@ func BuildTables(tabs []gen.TableSpec) (*BuiltStack, bool, error) {
 			return nil, false, fmt.Errorf("table %d: %v", i, err)
 		}
 		bs.Data = append(bs.Data, data)
-		if len(spec.Logs) > 0 {
-			for _, b := range specdec.Decode(data, spec.Cfg.HashSize(), !spec.Cfg.Unaligned).Blocks {
-				if b.Type == 'g' && b.Occupied > uint64(spec.Cfg.EffBlockSize()) {
-					bs.LongLogStreams++
-				}
+		hasObj := false
+		for _, b := range specdec.Decode(data, spec.Cfg.HashSize(), !spec.Cfg.Unaligned).Blocks {
+			if b.Type == 'g' && b.Occupied > uint64(spec.Cfg.EffBlockSize()) {
+				bs.LongLogStreams++
+			}
+			if b.Type == 'o' {
+				hasObj = true
 			}
 		}
+		bs.HasObjIndex = append(bs.HasObjIndex, hasObj)
 		bs.Names = append(bs.Names, fmt.Sprintf("0x%012x-0x%012x-%08x.ref", spec.Min, spec.Max, i))
 		bs.Models = append(bs.Models, model.Table{Min: spec.Min, Max: spec.Max, Refs: spec.Refs, Logs: NormLogs(spec.Logs, spec.Cfg)})
 		bs.HashID = spec.Cfg.HashID()
